@@ -51,7 +51,10 @@ T_MIN, T_MAX, EPS = 0.4, 3.2, 1e-6
 REASON_EXHAUSTED = 0x51
 
 NT = [("sil",), ("stale", "0"), ("stale", "T-"), ("nak", "0"), ("nak", "d"), ("nak", "T-"), ("nak", "T+"),
-      ("stale_old", "0"), ("stale_far", "d"), ("dstale", "0")]
+      ("stale_old", "0"), ("stale_far", "d"), ("dstale", "0"),
+      # an RSTACK in mid-send that is not the end of the story: the frame in flight goes on (and may still
+      # be acknowledged), sends that were already waiting behind it start in the new session
+      ("rstack", "0", 0x0B), ("rstack", "d", 0x0B)]
 TERM = [("ack", "0"), ("ack", "d"), ("ack", "T-"), ("ack", "T+"), ("nakc", "0"), ("dack", "0"),
         ("dack", "T-"), ("err", "0", 0x51), ("err", "d", 0x80), ("err", "T-", 0x52), ("err", "T+", 0x51),
         ("rstack", "0", 0x0B), ("rstack", "d", 0x02)]
@@ -424,12 +427,19 @@ def check_trace(trace, max_attempts: int):
                         ambiguous += 1
                     continue
             by_error = bool(s["errs"]) or s.get("failed_at_call")
-            if n >= max_attempts and not s["errs"]:
+            if n >= max_attempts and not s["errs"] and any(s["att"][-1] - EPS <= r and (r <= s["end"] + EPS or s["outcome"] == "cancelled") for r in s["rstacks"]):
+                # an RSTACK arrived while the last attempt was waiting: the send may end because of it (a new
+                # session has begun) or run out of budget as if nothing had happened - a notification for the
+                # exhausted budget is due only in the second case, and the trace cannot tell the two apart
+                ambiguous += 1
+            elif n >= max_attempts and not s["errs"]:
                 exhausted += 1
                 kinds = facts.setdefault("_exh", [])
                 kinds.append((len([x for x in s["naks"]]), n))
             elif n >= max_attempts and any(abs(e - s["end"]) < EPS for e in s["errs"]) and \
-                    s["end"] - s["att"][-1] >= T_MIN - EPS:
+                    (s["end"] - s["att"][-1] >= T_MIN - EPS or any(nk >= s["att"][-1] - EPS for nk in s["naks"])):
+                # the budget ran out (last timeout, or a NAK for the last attempt) in the very instant an ERROR
+                # frame was delivered: both are events
                 ambiguous += 1
             elif s["outcome"] == "cancelled":
                 facts["caller_cancelled_in_flight"] = True
